@@ -259,7 +259,7 @@ impl Ctx {
 
 fn main() {
     let args = Args::parse();
-    std::panic::set_hook(Box::new(|_| {}));
+    install_quiet_hook();
     let mut ctx = Ctx {
         drv: Driver::spawn(&args.driver),
         rep: Report::new(
